@@ -373,7 +373,7 @@ Definition mem_stop_text (s : mem_stop) : bytes :=
   | NotEnabled => [33;110;111;116;101;110;97;98;108;101;100]      (* "!notenabled" *)
   | Dangling => [33;100;97;110;103;108;105;110;103]               (* "!dangling" *)
   | Fault => [33;102;97;117;108;116]                              (* "!fault" *)
-  | GoPanic _ => [33;112;97;110;105;99]                           (* "!panic" *)
+  | GoPanic _ | NegativeRefCount | PoolIndexPanic => [33;112;97;110;105;99]   (* "!panic" *)
   end.
 
 (* Parse phase of one batch: returns the state, the printed parse observations (in input order), and the
@@ -461,7 +461,7 @@ Definition mem_case_pipeline (ss : list bytes) (zs : list Z) : bytes :=
   | Some pc =>
     match mem_run_batches (pc_cfg pc) (mem_init (pc_cfg pc)) (pc_inputs pc) (pc_batches pc) [] with
     | (txts, None) => [112;108;58] (* "pl:" *) ++ join mem_semi txts
-    | (_, Some Fault) | (_, Some (GoPanic _)) => mem_crash_text
+    | (_, Some Fault) | (_, Some (GoPanic _)) | (_, Some NegativeRefCount) | (_, Some PoolIndexPanic) => mem_crash_text
     | (txts, Some s) => [112;108;58] ++ join mem_semi txts ++ mem_stop_text s
     end
   | None => bad_case_output
